@@ -26,7 +26,8 @@
 From Coq Require Import ZArith NArith Bool List Permutation.
 From PcoreV Require Import Model.Base Model.Ty Model.QuoteLex Model.TypePrint Model.TokenParse Model.ValuePrint
   Model.ObjectPrint Model.LiteralText Model.TypeExpr Proofs.QuoteLexUtf8 Proofs.QuoteLexProofs Proofs.TypePrintProofs Proofs.ValuePrintProofs
-  Proofs.ObjectPrintProofs Proofs.TokenParseProofs Proofs.LiteralTextProofs Proofs.TypeExprProofs.
+  Proofs.ObjectPrintProofs Proofs.TokenParseProofs Proofs.LiteralTextProofs Proofs.TypeExprProofs
+  Model.ObjectExt Proofs.ObjectExtProofs.
 Import ListNotations.
 Open Scope N_scope.
 
@@ -323,6 +324,71 @@ Proof.
   split; [cbn; tauto|].
   intro H. cbn in H. repeat (destruct H as [H|H]; [discriminate H|]). exact H.
 Qed.
+
+(* ------------------------------------------------------------------------------------------ *)
+(* ---- extensions of parameterized Object types: My::P[1, 'x'], My::P[default, 'x'], My::Q[{c => true}] ---- *)
+
+(* Model/ObjectExt.v: an Object type that declares type_parameters is used with arguments; the extension keeps the
+   GIVEN parameters by name (`default` = not given). Parameters() writes them positionally (`default` for a
+   parameter that is not given, cut after the last given one) or, for a type with more than two parameters, as one
+   Hash of named arguments - unless that Hash would be taken for the value of the first parameter (fix in
+   objecttypeextension.go); NewObjectTypeExtension (called by the resolver with the parsed arguments) reads one Hash
+   that is no instance of the first parameter's type as named arguments, everything else positionally.
+   `inst` is the oracle px.IsInstance(type of the parameter named k, v): the statements hold for EVERY such oracle.
+   For EVERY list of distinct parameter names (any number: one, two, three, more) and EVERY set of given parameters
+   an extension can hold (`ext_wf`: any non-empty subset - only the first, only the second, only the last, all -,
+   stored in any order), the arguments it prints are read back as an extension with the same parameters. *)
+Theorem C05_ext_round_trip :
+  forall (inst : str -> xval -> bool) (names : list str) (m : pmap),
+    NoDup names -> ext_wf inst names m ->
+    exists p, reparse_ext inst names m = XOk p /\ pmap_equal p m /\ ext_wf inst names p.
+Proof. exact ext_round_trip. Qed.
+Print Assumptions C05_ext_round_trip.
+
+(* ... and that extension prints the same arguments again, provided IsInstance of a Hash does not depend on the order
+   of its entries (the only thing asked of the oracle). *)
+Theorem C05_ext_prints_same :
+  forall (inst : str -> xval -> bool) (names : list str) (m p : pmap),
+    NoDup names -> ext_wf inst names m ->
+    (forall k a b, pmap_equal a b -> inst k (XHash a) = inst k (XHash b)) ->
+    reparse_ext inst names m = XOk p ->
+    parameters inst names p = parameters inst names m.
+Proof. exact ext_prints_same. Qed.
+Print Assumptions C05_ext_prints_same.
+
+(* ext_wf is exactly what the constructor establishes: whatever arguments NewObjectTypeExtension accepts (by
+   position, by name, with `default` anywhere, surplus arguments, a key given twice), the result satisfies it. *)
+Theorem C05_ext_constructor_establishes_wf :
+  forall (inst : str -> xval -> bool) (names : list str) (args : list xval) (p : pmap),
+    initialize inst names args = XOk p -> ext_wf inst names p.
+Proof. exact initialize_wf. Qed.
+Print Assumptions C05_ext_constructor_establishes_wf.
+
+(* Non-vacuity. Parameters a, b (and c); values 1 = XAtom 1, 'x' = XAtom 2, true = XAtom 3. Only the SECOND given:
+   prints as [default, 'x'] and reads back; three parameters, only the last: the named form; when the first
+   parameter takes any value (also a Hash) the positional form [default, default, true] is written instead. *)
+Definition ex_inst (first_takes_hash : bool) (k : str) (v : xval) : bool :=
+  match v with
+  | XAtom n => (str_eqb k [97] && N.eqb n 1) || (str_eqb k [98] && N.eqb n 2) || (str_eqb k [99] && N.eqb n 3)
+               || (first_takes_hash && str_eqb k [97])
+  | XHash _ => first_takes_hash && str_eqb k [97]
+  | XDefault => false
+  end%N.
+Example C05_ext_second_parameter_only :
+  parameters (ex_inst false) [[97]; [98]]%N [([98]%N, XAtom 2)] = [XDefault; XAtom 2] /\
+  reparse_ext (ex_inst false) [[97]; [98]]%N [([98]%N, XAtom 2)] = XOk [([98]%N, XAtom 2)] /\
+  initialize (ex_inst false) [[97]; [98]]%N [XHash [([98]%N, XAtom 2); ([97]%N, XAtom 1)]] = XOk [([98]%N, XAtom 2); ([97]%N, XAtom 1)] /\
+  reparse_ext (ex_inst false) [[97]; [98]]%N [([98]%N, XAtom 2); ([97]%N, XAtom 1)] = XOk [([97]%N, XAtom 1); ([98]%N, XAtom 2)] /\
+  initialize (ex_inst false) [[97]; [98]]%N [XDefault; XDefault] = XErr XEmptyList.
+Proof. vm_compute. repeat split. Qed.
+Example C05_ext_three_parameters :
+  parameters (ex_inst false) [[97]; [98]; [99]]%N [([99]%N, XAtom 3)] = [XHash [([99]%N, XAtom 3)]] /\
+  reparse_ext (ex_inst false) [[97]; [98]; [99]]%N [([99]%N, XAtom 3)] = XOk [([99]%N, XAtom 3)] /\
+  parameters (ex_inst true) [[97]; [98]; [99]]%N [([99]%N, XAtom 3)] = [XDefault; XDefault; XAtom 3] /\
+  reparse_ext (ex_inst true) [[97]; [98]; [99]]%N [([99]%N, XAtom 3)] = XOk [([99]%N, XAtom 3)] /\
+  (* what the named form would be read as there: the value of the first parameter (the defect repaired) *)
+  initialize (ex_inst true) [[97]; [98]; [99]]%N [XHash [([99]%N, XAtom 3)]] = XOk [([97]%N, XHash [([99]%N, XAtom 3)])].
+Proof. vm_compute. repeat split. Qed.
 
 (* ------------------------------------------------------------------------------------------ *)
 (* ---- the parser: tokens <-> expressions (layer L2) ---- *)
